@@ -30,18 +30,18 @@ from ..core import Check, HarnessError, Inconclusive, Layer, Outcome, Violation,
 
 INF = 10**12
 
-# Finding D8 (reported, not repaired here): StandaloneXXXNetworkServer.server_close() swallows the BusyResourceError that the
+# Finding S1 (C18-local label) (reported, not repaired here): StandaloneXXXNetworkServer.server_close() swallows the BusyResourceError that the
 # embedded async server_close() raises during serve_forever() set-up (it is a RuntimeError, and _run_sync_or_else suppresses
 # RuntimeError), marks the server closed and returns, while the server goes on to come up with its listeners open.
 # With the flag on, the standalone generator keeps service_init instantaneous (so the window is a few loop iterations) and
 # the oracle skips exactly that shape, counting it, so that the search continues past it.
-EXCLUDE_D8 = os.environ.get("VERIF_C18_INCLUDE_D8") != "1"
+EXCLUDE_S1 = os.environ.get("VERIF_C18_INCLUDE_S1") != "1"
 
-# Finding D9 (reported, transient): the standalone server_close() racing with a shutdown() in progress returns before the
+# Finding S2 (C18-local label) (reported, transient): the standalone server_close() racing with a shutdown() in progress returns before the
 # listener sockets are closed (the portal refuses the call with RuntimeError, which is swallowed; the serving thread closes
 # the listeners moments later).  With the flag on, a listener that is open when server_close() returns but closed within a
 # 2 s grace period while a serve_forever() that had been up is unwinding is counted, not reported.
-EXCLUDE_D9 = os.environ.get("VERIF_C18_INCLUDE_D9") != "1"
+EXCLUDE_S2 = os.environ.get("VERIF_C18_INCLUDE_S2") != "1"
 
 LIFECYCLE = ("serve", "shutdown", "close", "activate")
 REFUSALS = ("ServerAlreadyRunning", "ServerClosedError", "BusyResourceError")
@@ -224,7 +224,8 @@ def check_history(
                     )
         if s["obs"].get("is_serving_at_end"):
             # sound under every interleaving: only a serve_forever that was not yet up when shutdown was called may be serving now
-            cands = [g for g in serves if g["start"] < s["end"] and _end(g) > s["start"] and not (g["up"] is not None and g["up"] < s["start"])]
+            sampled = s["obs"].get("sampled_at", s["end"])
+            cands = [g for g in serves if g["start"] < sampled and _end(g) > s["start"] and not (g["up"] is not None and g["up"] < s["start"])]
             if not cands:
                 fail(
                     "shutdown-returned-early",
@@ -232,30 +233,30 @@ def check_history(
                     op=s["i"],
                 )
 
-    def d8_shaped(c: dict, f: dict | None = None) -> bool:
-        """recorded finding D8 (standalone only): server_close() arriving while the embedded async serve_forever() is inside
+    def s1_shaped(c: dict, f: dict | None = None) -> bool:
+        """recorded finding S1 (standalone only): server_close() arriving while the embedded async serve_forever() is inside
         its set-up section (service_init entered, not yet up) returns normally although nothing was closed."""
-        if not (EXCLUDE_D8 and init_stamps is not None):
+        if not (EXCLUDE_S1 and init_stamps is not None):
             return False
         for g in serves if f is None else [f]:
             in_setup = g["start"] < c["end"] and (g["up"] is None or c["start"] < g["up"])
             if in_setup and any(g["start"] < t < c["end"] and (g["up"] is None or t < g["up"]) for t in init_stamps):
-                if skipped is not None and "D8-signature-skipped" not in skipped:
-                    skipped.append("D8-signature-skipped")
+                if skipped is not None and "S1-signature-skipped" not in skipped:
+                    skipped.append("S1-signature-skipped")
                 return True
         return False
 
-    def d9_shaped(c: dict) -> bool:
-        """recorded finding D9 (standalone only, transient): server_close() racing with a shutdown in progress finds a
+    def s2_shaped(c: dict) -> bool:
+        """recorded finding S2 (standalone only, transient): server_close() racing with a shutdown in progress finds a
         portal that no longer accepts calls, swallows the RuntimeError and returns while the serving thread has not closed
         the listeners yet; they are closed moments later by that thread's own unwinding."""
-        if not (EXCLUDE_D9 and init_stamps is not None):
+        if not (EXCLUDE_S2 and init_stamps is not None):
             return False
         if c["obs"].get("open_after_grace") != []:
             return False
         if any(f["up"] is not None and f["up"] < c["start"] and _end(f) > c["start"] for f in serves):
-            if skipped is not None and "D9-signature-skipped" not in skipped:
-                skipped.append("D9-signature-skipped")
+            if skipped is not None and "S2-signature-skipped" not in skipped:
+                skipped.append("S2-signature-skipped")
             return True
         return False
 
@@ -263,12 +264,12 @@ def check_history(
         if c["end"] is None:
             continue
         obs = c["obs"]
-        if (obs.get("is_serving_at_end") or obs.get("open_listeners_at_end")) and d8_shaped(c):
+        if (obs.get("is_serving_at_end") or obs.get("open_listeners_at_end")) and s1_shaped(c):
             continue
-        if obs.get("open_listeners_at_end") and not obs.get("is_serving_at_end") and d9_shaped(c):
+        if obs.get("open_listeners_at_end") and not obs.get("is_serving_at_end") and s2_shaped(c):
             continue
         for f in serves:
-            if f["up"] is not None and f["up"] > c["end"] and not d8_shaped(c, f):
+            if f["up"] is not None and f["up"] > c["end"] and not s1_shaped(c, f):
                 fail("served-after-close", f"serve_forever #{f['i']} came up (stamp {f['up']}) after server_close #{c['i']} had returned (stamp {c['end']})", op=f["i"])
         if obs.get("is_listening_at_end"):
             fail("listening-after-close", f"is_listening() is True right after server_close #{c['i']} returned", op=c["i"])
@@ -597,9 +598,9 @@ def st_standalone_case(draw: st.DrawFn, tier: str) -> dict:
         "loop_setup_ms": loop_setup_ms,
         "service_init_ms": draw(st.sampled_from([0, 0, 3, 8])),
     }
-    if EXCLUDE_D8 and case["service_init_ms"]:
+    if EXCLUDE_S1 and case["service_init_ms"]:
         case["service_init_ms"] = 0
-        case["d8_masked"] = True
+        case["s1_masked"] = True
     return case
 
 
@@ -703,12 +704,17 @@ def _standalone_once(case: dict) -> dict:
                 srv.serve_forever(is_up_event=Up(rec, hist))
             elif kind == "shutdown":
                 srv.shutdown()
+                rec["end"] = hist.stamp()
+                # (is_serving() takes the server's locks, so the sample can be late: it carries its own stamp)
                 rec["obs"]["is_serving_at_end"] = bool(srv.is_serving())
+                rec["obs"]["sampled_at"] = hist.stamp()
             elif kind == "close":
                 srv.server_close()
-                rec["obs"]["is_serving_at_end"] = bool(srv.is_serving())
+                rec["end"] = hist.stamp()
                 still_open = [i for i, sock in enumerate(seen_before) if _fileno_or_closed(sock) != -1]
                 rec["obs"]["open_listeners_at_end"] = list(still_open)
+                rec["obs"]["is_serving_at_end"] = bool(srv.is_serving())
+                rec["obs"]["sampled_at"] = hist.stamp()
                 if still_open:
                     # observation for the oracle: is the listener closed a moment later by somebody else's unwinding?
                     t0 = time.monotonic()
@@ -748,7 +754,8 @@ def _standalone_once(case: dict) -> dict:
             rec["result"] = f"exc:{type(exc).__name__}"
             rec["exc"] = "".join(traceback.format_exception(exc))
         finally:
-            rec["end"] = hist.stamp()
+            if rec["end"] is None:
+                rec["end"] = hist.stamp()
         return rec
 
     by_task: dict[int, list[tuple[int, dict]]] = {}
@@ -887,8 +894,8 @@ def _run_standalone_case(case: dict) -> Outcome:
     nt, classes = classify(recs)
     classes.append(case["proto"])
     classes.extend(skipped)
-    if case.get("d8_masked"):
-        classes.append("excluded-D8-by-construction")
+    if case.get("s1_masked"):
+        classes.append("excluded-S1-by-construction")
     return Outcome(nontrivial=nt, classes=tuple(classes))
 
 
@@ -906,7 +913,7 @@ CHECK = Check(
         "in time, or a serve_forever starts after a shutdown returned; distinct = sha1 of the canonical case JSON"
     ),
     layers=[
-        Layer("async", st_async_case, run_async_case, {"quick": 3000, "thorough": 30000}),
+        Layer("async", st_async_case, run_async_case, {"quick": 3000, "thorough": 20000}),
         Layer("standalone", st_standalone_case, run_standalone_case, {"quick": 40, "thorough": 200}, case_timeout_s=400.0),
     ],
     assumptions=[
